@@ -423,6 +423,9 @@ func runC17_5(c *Ctx) {
 }
 
 func init() {
+	register(&Rule{ID: "C17.7", Prop: "C17", Min: 8,
+		Text: "the context status seen by the pre-write hooks is nil unless the handler failed: the call-handler closures store the handler's status into ctx.stat only on its non-OK edge (same obligations as C04.3) - the secure plugin skips encryption when ctx.Status() != nil, so a recorded non-nil OK status sends the reply to a secure call in clear",
+		Run:  runC04_3})
 	register(&Rule{ID: "C17.6", Prop: "C17", Min: 2,
 		Text: "the encrypting pre-write stage runs once per outgoing message: in AsyncCall and Push no path leads from session.write (e.g. the retry after a redial) back to the pre-write plugin stage - the secure hook is not idempotent, a second pass would encrypt the envelope again and the receiver would decode garbage",
 		Run:  runC17_6})
